@@ -231,8 +231,7 @@ const char* riskTag(const std::string& op, const PF& a, const PF* b, const PF* c
         if (startsWith(op, "REACHABLE_SATUR") && b->k.rt != range_type::BOOLEAN) return "F4-satur-nonbool-relation";
         return nullptr;
     }
-    if (op == "VM_MULTIPLY" && !isMT(a.k)) return "F3-vecmat-nonmt-vector";
-    if (op == "MV_MULTIPLY" && !isMT(b->k)) return "F3-vecmat-nonmt-vector";
+    // F3 (VM/MV_MULTIPLY with a non-multi-terminal vector) is repaired in /repo (fix: 41a8b5e): rejected with TYPE_MISMATCH
     if (op == "INTERSECTION" && a.k.rt != b->k.rt) return "F5-intersection-mixed-range";
     if ((op == "PRE_IMAGE" || op == "POST_IMAGE") && isMT(c->k) && c->k.rt == range_type::INTEGER && a.tok != c->tok)
         return "F6-image-distance-foreign-operand";
